@@ -90,6 +90,9 @@ class Geo:
         return [self.v(i) for i in self.t[:, c]]
 
     def cell_measure(self, c):
+        if self.kind == 'hex':
+            # exact volume of the trilinear cell (faces need not be planar): integral of det DF over the unit cube
+            return abs(hex_volume_exact(self.cell_pts(c)))
         return cell_measure(self.kind, self.cell_pts(c))
 
     def centroid(self, c):
@@ -98,7 +101,81 @@ class Geo:
         return tuple(sum(q[k] for q in pts) / len(pts) for k in range(d))
 
 
+_HEXP = [(1, 1, 1), (1, 1, 0), (1, 0, 1), (0, 1, 1), (1, 0, 0), (0, 1, 0), (0, 0, 1), (0, 0, 0)]   # skfem RefHex vertex order
+_HEXSH = None
+
+
+def _hex_shape_polys():
+    global _HEXSH
+    if _HEXSH is None:
+        from .exact import Poly
+        X = [Poly.var(3, i) for i in range(3)]
+        one = Poly.const(3, 1)
+        _HEXSH = []
+        for v in _HEXP:
+            f = one
+            for k in range(3):
+                f = f * (X[k] if v[k] == 1 else one - X[k])
+            _HEXSH.append(f)
+    return _HEXSH
+
+
+def hex_volume_exact(pts):
+    from .exact import Poly, det_poly
+    sh = _hex_shape_polys()
+    Fm = []
+    for i in range(3):
+        acc = Poly(3)
+        for k, s_ in enumerate(sh):
+            acc = acc + s_ * pts[k][i]
+        Fm.append(acc)
+    J = [[Fm[i].diff(j) for j in range(3)] for i in range(3)]
+    return det_poly(J).integrate_ref('hex')
+
+
+def hex_planar(pts):
+    for f in REF['hex']['facets']:
+        q = [pts[i] for i in f]
+        M = [[q[k][d] - q[0][d] for d in range(3)] for k in (1, 2, 3)]
+        if ex.det_fr(M) != 0:
+            return False
+    return True
+
+
+def point_in_closed_hex_trilinear(pts, x, tol=1e-9):
+    """Closed containment in a trilinear hexahedron with possibly non-planar faces: own Newton inverse of the
+    trilinear map in floating point (tolerance tol in reference coordinates)."""
+    P = np.array([[float(c) for c in q] for q in pts])          # (8, 3)
+    xf = np.array([float(c) for c in x])
+    V = np.array(_HEXP, dtype=float)
+    xi = np.full(3, .5)
+    for _ in range(60):
+        N = np.ones(8)
+        dN = np.zeros((8, 3))
+        for k in range(8):
+            f = [xi[d] if V[k, d] == 1 else 1 - xi[d] for d in range(3)]
+            N[k] = f[0] * f[1] * f[2]
+            for d in range(3):
+                g = 1.0 if V[k, d] == 1 else -1.0
+                o = [f[e] for e in range(3) if e != d]
+                dN[k, d] = g * o[0] * o[1]
+        r = N @ P - xf
+        Jm = P.T @ dN
+        try:
+            dx = np.linalg.solve(Jm, r)
+        except np.linalg.LinAlgError:
+            return False
+        xi = xi - dx
+        if np.abs(dx).max() < 1e-14:
+            break
+    scale = 1 + np.abs(P).max()
+    f_ok = np.abs(r).max() < 1e-9 * scale
+    return bool(f_ok and (xi >= -tol).all() and (xi <= 1 + tol).all())
+
+
 def point_in_closed_cell(kind, pts, x):
+    if kind == 'hex' and not hex_planar(pts):
+        return point_in_closed_hex_trilinear(pts, x)
     for s in SIMPLICES[kind]:
         sp = [pts[i] for i in s]
         lam = ex.barycentric(sp, x)
@@ -303,10 +380,6 @@ def check_refinement(pid, kind, m0, m1, records, bad, out, uniform_k=None, marke
     for c1, P in enumerate(parents):
         children.setdefault(P, []).append(c1)
     planar = True
-    if kind == 'hex':
-        planar = hex_faces_planar(p1v, t1)
-        if not planar:
-            out.count('hex_volume_sum_skipped_nonplanar_children')
     if planar:
         for P in range(t0.shape[1]):
             tot = sum((g1.cell_measure(c) for c in children.get(P, [])), Fr(0))
